@@ -83,7 +83,7 @@ CLAIMED = {
     note='Trusted: CPython ast, tsa analyser. Known finding: the PRIVATE maker (listed in known_findings.json).'),
  'C19': dict(
     level='other', ref='DESIGN.md 4 C19',
-    technique='interprocedural write-effect summaries (fixpoint over the call graph) used for an iteration/mutation conflict rule, a who-may-write rule for the module-level registries with call-graph unreachability from run/compile entry points, guard dominance for set semantics, a mutable-default escape rule, alias tracking through constructor keywords and method calls, and a shared-entry-object rule for registry initialisers',
+    technique='interprocedural write-effect summaries (fixpoint over the call graph) used for an iteration/mutation conflict rule, a who-may-write rule for the module-level registries with call-graph unreachability from run/compile entry points, guard dominance for set semantics, a mutable-default escape rule, alias tracking through constructor keywords and method calls, a shared-entry-object rule for registry initialisers, and a no-memoisation rule over every function of the package',
     text='Decides the history channels of C19 on the source: no collection is structurally mutated while iterated (directly or via callees), registries are written only by the add_/remove_/reset_ API and no run/compile entry point or handler can reach a writer, the API has insert-if-absent / delete-if-present shape and compares entries by equality on both sides (never by identity), no mutable default that a caller can take is mutated through forwarding, and the embedder dictionaries are only read or copied. Set semantics over arbitrary histories (e.g. interfaces keyed by __name__) is not decided.',
     note='Trusted: CPython ast, tsa analyser; call graph = direct calls through resolved names plus run_tape dispatch to every registered handler.'),
  'C20': dict(
